@@ -337,8 +337,13 @@ def oracle(r, consts):
         if not was_failed and (err_codes or is_failed):
             if err_codes and not is_failed and not any(x[0] == "K" for x in fs_):
                 return f"an ERROR frame arrived (event {ev}) and the link is not in the failed state"
-            # one report per failure cause in this event: each ERROR frame, and an exhausted budget if a timer fired
-            hi = max(1, len(err_codes) + (1 if timeout_here else 0))
+            # one report per failure cause in this event: each ERROR frame, and an exhausted budget - by a timer that fired
+            # or by a NAK answering the last attempt - when it coincides with it in the same loop iteration
+            nak_here = any(x[0] == "N" for x in fs_)
+            hi = max(1, len(err_codes) + (1 if (timeout_here or nak_here) else 0))
+            extra = [c for c in reports if c not in err_codes and c != 81]
+            if extra:
+                return f"the link failed on event {ev} and the upper layer was told with reason(s) {extra}, which no ERROR frame carried"
             lo = 1 if timeout_here else max(1, len(err_codes))
             if not (lo <= len(reports) <= hi):
                 return f"the link failed on event {ev} and the upper layer was told {len(reports)} times"
